@@ -369,6 +369,30 @@ def transparent_helpers(doc):
             for fld in ('key', 'parent', 'closure', 'def_path', 'path', 'path_args', 'text', 'drop_key'):
                 s = s.replace('"%s":"%s"' % (fld, o), '"%s":"%s"' % (fld, n_))
         doc['bodies'] = bodies = json.loads(s)
+        # the callee descriptors of renamed functions also carry the name and the printed path
+        back = {v: k for k, v in keymap.items()}
+
+        def fixnames(x):
+            if isinstance(x, list):
+                for v in x:
+                    fixnames(v)
+            elif isinstance(x, dict):
+                fn = x.get('fn')
+                if isinstance(fn, dict) and fn.get('key') in back and fn.get('name'):
+                    cur, want = fn['name'], fn['key'].rsplit('::', 1)[-1]
+                    if cur != want:
+                        for fld in ('path', 'path_args'):
+                            if isinstance(fn.get(fld), str) and fn[fld].endswith('::' + cur):
+                                fn[fld] = fn[fld][:-len(cur)] + want
+                        fn['name'] = want
+                        r = fn.get('resolved')
+                        if isinstance(r, dict) and isinstance(r.get('path'), str) and r['path'].endswith('::' + cur):
+                            r['path'] = r['path'][:-len(cur)] + want
+                        if isinstance(x.get('text'), str) and x['text'].endswith('::' + cur):
+                            x['text'] = x['text'][:-len(cur)] + want
+                for v in x.values():
+                    fixnames(v)
+        fixnames(bodies)
         by_key = {b['key']: b for b in bodies}
         info['renamed'] = keymap
         new = [b for b in bodies if b['key'] not in known and _is_plain_fn(b) and not b.get('exported') and not b.get('reachable')]
@@ -499,6 +523,7 @@ _COMBINATORS = {
     'core::result::Result::<T, E>::map_err': ('result', 'map_err'),
     'core::option::Option::<T>::ok_or': ('option', 'ok_or'),
 }
+_UNARY_COMBINATORS = {'core::result::Result::<T, E>::ok': 'ok'}
 
 
 def _agg(adt, variant, vidx, fnames, fields, args=None):
@@ -1057,4 +1082,141 @@ def pinned_field_names(doc):
                 walk(v)
     walk(doc['bodies'])
     doc.setdefault('meta', {})['renamed_fields'] = ren
+    return doc
+
+
+
+# N3e `r.ok()` is `match r { Ok(v) => Some(v), Err(_) => None }`
+def expand_result_ok(doc):
+    n = 0
+    for b in doc['bodies']:
+        blocks = b['blocks']
+        L = b['locals']
+        for blk in list(blocks):
+            t = blk['term']
+            if t.get('k') != 'call' or blk.get('cleanup') or t.get('target') is None or len(t.get('args', [])) != 1 or t['dest']['p']:
+                continue
+            fn = (t.get('func') or {}).get('fn') or {}
+            if fn.get('path') not in _UNARY_COMBINATORS:
+                continue
+            x = t['args'][0]
+            if x.get('k') != 'move' or x['place']['p']:
+                continue
+            xa = _ty_args(t['arg_tys'][0])
+            da = _ty_args(t['dest_ty'])
+            if len(xa) != 2 or len(da) != 1:
+                continue
+            xl = x['place']['l']
+            line = t.get('line')
+            L.append({'ty': 'isize', 'ty_raw': 'isize', 'name': None, 'mut': True, 'synthetic': True})
+            dl = len(L) - 1
+            L.append({'ty': xa[0], 'ty_raw': xa[0], 'name': None, 'mut': True, 'synthetic': True})
+            vl = len(L) - 1
+            base = len(blocks)
+            blk['stmts'].append({'k': 'assign', 'place': {'l': dl, 'p': []}, 'rv': {'k': 'discriminant', 'place': {'l': xl, 'p': []}}, 'line': line, 'exp': False, 'syn': 'ok'})
+            blk['term'] = {'k': 'switch', 'discr': {'k': 'move', 'place': {'l': dl, 'p': []}}, 'discr_ty': 'isize', 'targets': [[0, base]], 'otherwise': base + 1,
+                           'line': line, 'exp': False, 'syn': 'ok'}
+            payload = {'l': xl, 'p': [{'downcast': 'Ok', 'v': 0}, {'f': '0', 'i': 0, 'ty': xa[0], 'adt': 'core::result::Result'}]}
+            blocks.append({'cleanup': False, 'syn': 'ok', 'stmts': [
+                {'k': 'assign', 'place': {'l': vl, 'p': []}, 'rv': {'k': 'use', 'op': {'k': 'move', 'place': payload}}, 'line': line, 'exp': False, 'syn': 'ok'},
+                {'k': 'assign', 'place': t['dest'], 'rv': _agg('core::option::Option', 'Some', 1, ['0'], [{'k': 'move', 'place': {'l': vl, 'p': []}}], da), 'line': line, 'exp': False, 'syn': 'ok'}],
+                'term': {'k': 'goto', 'target': t['target'], 'line': line}})
+            blocks.append({'cleanup': False, 'syn': 'ok', 'stmts': [
+                {'k': 'assign', 'place': t['dest'], 'rv': _agg('core::option::Option', 'None', 0, [], [], da), 'line': line, 'exp': False, 'syn': 'ok'}],
+                'term': {'k': 'goto', 'target': t['target'], 'line': line}})
+            n += 1
+    doc.setdefault('meta', {})['expanded_result_ok'] = n
+    return doc
+
+
+# N3f `it.find_map(f)` is the loop `loop { match it.next() { Some(x) => if let Some(r) = f(x) { break Some(r) }, None => break None } }`
+def expand_find_map(doc):
+    bodies = doc['bodies']
+    by_key = {b['key']: b for b in bodies}
+    crate = (doc.get('meta') or {}).get('crate', 'hpke')
+    n = 0
+    for b in bodies:
+        blocks = b['blocks']
+        L = b['locals']
+        for bi in range(len(blocks)):
+            blk = blocks[bi]
+            t = blk['term']
+            if t.get('k') != 'call' or blk.get('cleanup') or t.get('target') is None or len(t.get('args', [])) != 2 or t['dest']['p']:
+                continue
+            fn = (t.get('func') or {}).get('fn') or {}
+            if fn.get('path') != 'core::iter::Iterator::find_map' or fn.get('local'):
+                continue
+            itop, fop = t['args']
+            # find_map takes `&mut self`: the operand is a reference to the iterator local
+            app = _applied(b, by_key, fop)
+            if app is None or app[0] != 'closure':
+                continue
+            ck = app[1]
+            cb = by_key[ck]
+            if cb['arg_count'] != 2:
+                continue
+            item_ty = cb['locals'][2]['ty']
+            env_ty = cb['locals'][1]['ty']
+            ref_ty = t['arg_tys'][0]
+            if not ref_ty.startswith('&mut '):
+                continue
+            it_ty = ref_ty[len('&mut '):]
+            res_ty = t['dest_ty']
+            line = t.get('line')
+
+            def new_local(ty):
+                L.append({'ty': ty, 'ty_raw': ty, 'name': None, 'mut': True, 'synthetic': True})
+                return len(L) - 1
+
+            def mv(l):
+                return {'k': 'move', 'place': {'l': l, 'p': []}}
+
+            def asg(place, rv):
+                return {'k': 'assign', 'place': place, 'rv': rv, 'line': line, 'exp': False, 'syn': 'find_map'}
+            if itop.get('k') != 'move' or itop['place']['p']:
+                continue
+            rl = itop['place']['l']          # the &mut iterator reference
+            nx_l = new_local('core::option::Option<%s>' % item_ty)
+            d_l = new_local('isize')
+            x_l = new_local(item_ty)
+            r_l = new_local(res_ty)
+            d2_l = new_local('isize')
+            rr_l = new_local(ref_ty)
+            base = len(blocks)
+            H, S, B, C, X = base, base + 1, base + 2, base + 3, base + 4
+            blk['term'] = {'k': 'goto', 'target': H, 'line': line, 'syn': 'find_map'}
+            nfn = {'path': 'core::iter::Iterator::next', 'path_args': '<%s as core::iter::Iterator>::next' % it_ty, 'key': 'core::iter::Iterator::next',
+                   'crate': 'core', 'local': False, 'name': 'next', 'generic_args': [it_ty], 'def_kind': 'AssocFn', 'trait': 'core::iter::Iterator', 'self_ty': it_ty,
+                   'resolved': {'path': 'core::iter::Iterator::next', 'key': 'core::iter::Iterator::next', 'local': False, 'crate': 'core', 'kind': 'item', 'desc': 'item'}}
+            blocks.append({'cleanup': False, 'syn': 'find_map',
+                           'stmts': [asg({'l': rr_l, 'p': []}, {'k': 'ref', 'mut': True, 'fake': False, 'place': {'l': rl, 'p': ['deref']}})],
+                           'term': {'k': 'call', 'func': {'k': 'const', 'ty': 'fn', 'text': nfn['path_args'], 'fn': nfn}, 'args': [mv(rr_l)], 'arg_tys': [ref_ty],
+                                    'dest': {'l': nx_l, 'p': []}, 'dest_ty': 'core::option::Option<%s>' % item_ty, 'target': S, 'unwind': t.get('unwind', 'continue'),
+                                    'source': 'Normal', 'line': line, 'fn_line': line, 'exp': False, 'syn': 'find_map'}})
+            blocks.append({'cleanup': False, 'syn': 'find_map', 'stmts': [asg({'l': d_l, 'p': []}, {'k': 'discriminant', 'place': {'l': nx_l, 'p': []}})],
+                           'term': {'k': 'switch', 'discr': mv(d_l), 'discr_ty': 'isize', 'targets': [[1, B]], 'otherwise': X, 'line': line, 'exp': False, 'syn': 'find_map'}})
+            envop = app[2]
+            bst = [asg({'l': x_l, 'p': []}, {'k': 'use', 'op': {'k': 'move', 'place': {'l': nx_l, 'p': [{'downcast': 'Some', 'v': 1}, {'f': '0', 'i': 0, 'ty': item_ty, 'adt': 'core::option::Option'}]}}})]
+            if env_ty.startswith('&') and envop.get('k') == 'move':
+                e_l = new_local(env_ty)
+                bst.append(asg({'l': e_l, 'p': []}, {'k': 'ref', 'mut': env_ty.startswith('&mut'), 'fake': False, 'place': envop['place']}))
+                envop = mv(e_l)
+            elif envop.get('k') == 'move':
+                envop = {'k': 'copy', 'place': envop['place']}
+            cfn = {'path': ck, 'path_args': ck, 'key': ck, 'crate': crate, 'local': True, 'name': ck.rsplit('::', 1)[-1], 'generic_args': [], 'def_kind': 'Closure',
+                   'resolved': {'path': ck, 'key': ck, 'local': True, 'crate': crate, 'kind': 'closure', 'desc': 'item'}}
+            blocks.append({'cleanup': False, 'syn': 'find_map', 'stmts': bst,
+                           'term': {'k': 'call', 'func': {'k': 'const', 'ty': 'closure', 'text': ck, 'fn': cfn}, 'args': [envop, mv(x_l)], 'arg_tys': [env_ty, item_ty],
+                                    'dest': {'l': r_l, 'p': []}, 'dest_ty': res_ty, 'target': C, 'unwind': t.get('unwind', 'continue'), 'source': 'Normal',
+                                    'line': line, 'fn_line': line, 'exp': False, 'syn': 'find_map'}})
+            # C: Some(r) => result, None => next iteration
+            blocks.append({'cleanup': False, 'syn': 'find_map', 'stmts': [asg({'l': d2_l, 'p': []}, {'k': 'discriminant', 'place': {'l': r_l, 'p': []}})],
+                           'term': {'k': 'switch', 'discr': mv(d2_l), 'discr_ty': 'isize', 'targets': [[0, H]], 'otherwise': base + 5, 'line': line, 'exp': False, 'syn': 'find_map'}})
+            blocks.append({'cleanup': False, 'syn': 'find_map', 'stmts': [asg(t['dest'], _agg('core::option::Option', 'None', 0, [], [], _ty_args(res_ty)))],
+                           'term': {'k': 'goto', 'target': t['target'], 'line': line}})
+            blocks.append({'cleanup': False, 'syn': 'find_map', 'stmts': [asg(t['dest'], {'k': 'use', 'op': mv(r_l)})],
+                           'term': {'k': 'goto', 'target': t['target'], 'line': line}})
+            inline_call(b, B, cb, doc)
+            n += 1
+    doc.setdefault('meta', {})['expanded_find_map'] = n
     return doc
